@@ -97,7 +97,9 @@ def run_kernel_check(prop, tier, kernels_wanted, solver_insts, reps, sample_coun
     from . import solverchecks as sc
     tcov, straces = sc.trace_part(prop, solver_insts, V, os.path.join(wd, "traces"))
     insolver = sum(1 for t in straces for e in t["ev"] if e["ev"] == "Kernel")
+    outdom = sum(1 for t in straces for e in t["ev"] if e["ev"] == "Kernel" and e.get("dom") == "out")
     cov = dict(states=r["distinct"], transitions=r["generated"], class_patterns=len(sel), kernel_calls=ncalls, kernel_calls_inside_solver_runs=insolver,
+               kernel_calls_inside_solver_runs_outside_scale_domain=outdom,
                traces_validated_against_impl=len(traces) + tcov["traces_validated_against_impl"], clause_failures=dict(hits, **tcov["clause_failures"]),
                evaluations=ncalls + insolver, distinct_nontrivial=len(sel), solver_outcomes=tcov["outcomes"],
                rule="class patterns of Kernels.tla (exhaustive for n <= %d; dimensions up to 8 sampled from the same class sets), %d concretisations each with scalings over the "
